@@ -84,6 +84,13 @@ def events(seed, n):
                             if len(ax) < 2:
                                 continue
                             xs = list(ax) + [0.5 * (ax[0] + ax[1]), ax[0] + (ax[1] - ax[0]) / 3.0, ax[-2] + 2 * (ax[-1] - ax[-2]) / 3.0]
+                            # coordinates NEXT TO a node (a few parts per million, 1e-9, one ulp): in between is in between
+                            for kx in (0, len(ax) - 1, len(ax) // 2):
+                                for dx in (1e-9, 3e-6 * (ax[-1] - ax[0]), 1e-5 * max(abs(ax[kx]), 1e-3)):
+                                    for cand in (ax[kx] + dx, ax[kx] - dx, np.nextafter(ax[kx], np.inf), np.nextafter(ax[kx], -np.inf)):
+                                        if ax[0] < cand < ax[-1] and cand not in ax:
+                                            xs.append(float(cand))
+                            xs = list(dict.fromkeys(float(x) for x in xs))
                             for x in xs:
                                 for key in (a, f"n{a}"):
                                     try:
